@@ -558,6 +558,21 @@ def check_path(spec, inst, st, res, rng, tr, seeds, angle_pins, g):
             smt, names = q.smt()
             if q.nontrivial():
                 res.nontrivial += 1
+            if inst.get("seed_check") and not ob.extra_smt:
+                # optional (additive): the path's own seed satisfies the path condition by construction; if it satisfies the obligation's
+                # hypotheses and falsifies its goal numerically, the seed is a counterexample: replay it like a solver model.
+                try:
+                    hy0, go0, det0 = goal_numeric(enc, ob)
+                    finite = all(v == v and abs(v) != math.inf for (_, v, _, _) in det0)
+                except (KeyError, OverflowError):
+                    hy0, go0, finite = True, True, False
+                if finite and hy0 and not go0:
+                    nviol = len(res.violations) + len(res.known)
+                    handle_sat(spec, inst, st, res, tr, enc, ob, {}, seeds, angle_pins, free, free_all, g, known, smt)
+                    if len(res.violations) + len(res.known) > nviol:
+                        res.extra["violations_found_at_a_path_seed"] = res.extra.get("violations_found_at_a_path_seed", 0) + 1
+                        continue
+                    res.abstraction_cex.pop()     # not confirmed by the replay: ask the solver as usual
             has_inv = any(enc.ring.kind[v] == "inv" for cc in ob.goal for v in enc.ring.vars_of(cc.p))
             all_eq = all(cc.rel == 1 for cc in ob.goal)
             r = None
